@@ -2070,7 +2070,12 @@ class Machine:
         if k == "assert":
             c = self.operand(st, fr, t["c"])
             if c[0] == "top":
-                self.oblige(st, "assert:" + t["msg"], False, "cannot prove %s never fails (%s)" % (t["msg"], c[1]))
+                # reported (C01, C19 panic clause) but not fatal: the path on which the assertion
+                # holds goes on, so that what the code does *after* it is still compared with the
+                # reference (seeded change C03-K hid a framing change behind an unprovable `start + 1`)
+                self.oblige(st, "assert:" + t["msg"], False, "cannot prove %s never fails (%s)" % (t["msg"], c[1]), fatal=False)
+                self.goto(st, fr, t["t"])
+                return
             c = self.concretize(st, c)
             ok = (c[1] != 0) == t["expected"]
             self.oblige(st, "assert:" + t["msg"], ok, "%s can fail" % t["msg"])
